@@ -57,6 +57,10 @@ int main(void) {
     } else if (!strcmp(op, "delete") && n == 2) {
       myth_tls_destructor_fun_t f = myth_tls_key_allocator_dealloc(ka, (int)a);
       printf("%d\n", f == (myth_tls_destructor_fun_t)-1 ? EINVAL : 0);
+    } else if (!strcmp(op, "reinit") && n == 1) {
+      /* what a myth_init after a myth_fini does: the same (static) table is initialised again, in place */
+      myth_tls_key_allocator_init(ka);
+      printf("0\n");
     } else if (!strcmp(op, "exit") && n == 2 && a >= 0 && a < MAXT) {
       frees = 0; calls_len = 0; calls[0] = 0;
       myth_tls_tree_fini(tree(a), ka);
